@@ -312,28 +312,17 @@ def check_panics(out, facts, S):
                 key = 'panic site %s in %s [%s]' % (e[1], fkey(fn), cfg)
                 if e[1] == 'expect':
                     # Result of compact_encode_len_to: its only Err exit is under len > u32::MAX
-                    recv = strip(e[3]) if len(e) > 3 else None
-                    arms = [a for a in p[:idx] if a[0] == 'ARM' and isinstance(a[1], tuple) and a[1][0] == 'if']
-                    okj = False
-                    for a in arms:
-                        c = a[1][1]
-                        for ln in (0, 1, 2 ** 32 - 1, 2 ** 32, 2 ** 40):
-                            pass
-                        vals = {}
-                        good = True
-                        for ln in (0, 5, 2 ** 32 - 1, 2 ** 32, 2 ** 33):
-                            r = eval_expr(c, lambda x: ln if (isinstance(x, tuple) and x[0] == 'call' and x[1] == 'len') else None)
-                            if r is None:
-                                good = False
-                                break
-                            vals[ln] = bool(r)
-                        if good and all(vals[ln] == (ln > 2 ** 32 - 1) for ln in vals):
-                            okj = True
-                    # on this path (which reached the expect) the Err arm was not taken, so expect cannot fire unless the
-                    # helper has another Err exit
+                    # decided by evaluating the helper's branch conditions at boundary lengths (any spelling of the check:
+                    # `len > u32::MAX`, `u32::try_from(len)` ...): it must fail exactly for len > u32::MAX, in which case the
+                    # expect fires only for a count that has no SCALE representation
                     hel = [x for x in sym.walk(term) if shape._is_count_helper(x)]
-                    errs = sum(1 for h in hel for y in sym.walk(h[2]) if y[0] in ('ERR', '?'))
-                    okj = okj and errs == len(hel)
+                    okj = bool(hel)
+                    for h in hel:
+                        for ln in (0, 5, 2 ** 32 - 1, 2 ** 32, 2 ** 33):
+                            evs_, st = trace(h[2], lambda x, ln=ln: ln if (isinstance(x, tuple) and x and x[0] == 'call' and x[1] == 'len') else None)
+                            failed = st == 'ERR'
+                            if st not in ('OK', 'RET', 'ERR') or failed != (ln > 2 ** 32 - 1):
+                                okj = False
                     out.ob('R01.4', key, okj, 'expect on the count prefix can fire for a representable count: the helper rejects something other than len > u32::MAX', e[2])
                 elif e[1] in ('panic_fmt', 'panic', 'assert_failed', 'panic_explicit'):
                     arms = [a for a in p[:idx] if a[0] == 'ARM' and isinstance(a[1], tuple) and a[1][0] == 'if']
